@@ -36,6 +36,32 @@ theorem history_independent {S L : Type} (sys : Sys S L) (σ : S) (hist sched : 
   rw [DC.Props.C10.noninterference, DC.Props.C10.noninterference]
   simp [steps, List.count_append, List.count_eq_zero_of_not_mem h]
 
+/-- Running alone depends on the call index only through its program. -/
+theorem alone_congr {S L : Type} (sys : Sys S L) (σ : S) (i j : Nat) (hp : sys.step i = sys.step j) (n : Nat) (l : L) :
+    sys.alone σ i n l = sys.alone σ j n l := by
+  induction n generalizing l with
+  | zero => rfl
+  | succ n ih => simp only [Sys.alone, hp, ih]
+
+/-- Repeatable: a second call of the same program on the same argument (same local start), taken as far as the first, computes
+the same state — in any two schedules, whatever else runs in between, before or after. -/
+theorem repeatable {S L : Type} (sys : Sys S L) (σ : S) (s₁ s₂ : List Nat) (ls₁ ls₂ : Nat → L) (i j : Nat)
+    (hp : sys.step i = sys.step j) (hl : ls₁ i = ls₂ j) (hn : steps i s₁ = steps j s₂) :
+    sys.run σ ls₁ s₁ i = sys.run σ ls₂ s₂ j := by
+  rw [DC.Props.C10.noninterference, DC.Props.C10.noninterference, hn, hl, alone_congr sys σ i j hp]
+
+/-- The order in which the steps of all calls are scheduled is irrelevant to every call. -/
+theorem order_irrelevant {S L : Type} (sys : Sys S L) (σ : S) (s₁ s₂ : List Nat) (ls : Nat → L) (i : Nat)
+    (hperm : s₁.Perm s₂) : sys.run σ ls s₁ i = sys.run σ ls s₂ i := by
+  rw [DC.Props.C10.noninterference, DC.Props.C10.noninterference]
+  simp only [steps, hperm.count_eq]
+
+/-- non-vacuity: a two-step counter program shared by calls 0 and 5; call 5 repeated after call 0, in different company. -/
+example : (Sys.run (⟨fun _ σ l => l + σ⟩ : Sys Nat Nat) 3 (fun _ => 10) [0, 7, 0, 5, 5] 5)
+    = (Sys.run (⟨fun _ σ l => l + σ⟩ : Sys Nat Nat) 3 (fun _ => 10) [0, 0] 0) :=
+  repeatable _ 3 [0, 7, 0, 5, 5] [0, 0] _ _ 5 0 rfl rfl (by decide)
+example : Sys.run (⟨fun _ σ l => l + σ⟩ : Sys Nat Nat) 3 (fun _ => 10) [0, 0] 0 = 16 := by decide
+
 /-- Pre-repair code: a `CREATE VIEW … AS SELECT … FORMAT` rendering that panics after setting the flag
 (only its first step runs) leaves the flag set, and a later top-level `SELECT … FORMAT`, run entirely on
 its own afterwards, prints 1 child instead of 2. -/
